@@ -401,6 +401,9 @@ func main() {
 			imported[n] = true
 		}
 		for _, d := range af.Decls {
+			if gd, ok := d.(*ast.GenDecl); ok {
+				collectState(gd)
+			}
 			fd, ok := d.(*ast.FuncDecl)
 			if !ok || fd.Body == nil {
 				continue
@@ -614,10 +617,96 @@ func main() {
 		}
 		fmt.Fprintf(&b, "(%s, %s)", q(tb[0]), q(tb[1]))
 	}
+	b.WriteString("]\n\n")
+	// the shape of the state: package-level variables (name, type or initialiser as written) and the
+	// fields of every struct type (the model's state has one component per entry: a new variable or
+	// field is state the model does not know about)
+	sort.Slice(pkgVars, func(i, j int) bool { return pkgVars[i][0] < pkgVars[j][0] })
+	b.WriteString("def pkgVars : List (String × String) := [")
+	for i, v := range pkgVars {
+		if i > 0 {
+			b.WriteString(", ")
+		}
+		fmt.Fprintf(&b, "(%s, %s)", q(v[0]), q(v[1]))
+	}
+	b.WriteString("]\n")
+	sort.Slice(structs, func(i, j int) bool { return structs[i].Name < structs[j].Name })
+	b.WriteString("def structFields : List (String × List String) := [\n")
+	for i, st := range structs {
+		if i > 0 {
+			b.WriteString(",\n")
+		}
+		fmt.Fprintf(&b, "  (%s, [%s])", q(st.Name), joinQ(st.Fields, q))
+	}
+	b.WriteString("]\n\n")
+	sort.Slice(consts, func(i, j int) bool { return consts[i][0] < consts[j][0] })
+	b.WriteString("/-- string and integer constants of the package, as written -/\ndef consts : List (String × String) := [")
+	for i, v := range consts {
+		if i > 0 {
+			b.WriteString(", ")
+		}
+		fmt.Fprintf(&b, "(%s, %s)", q(v[0]), q(v[1]))
+	}
 	b.WriteString("]\n\nend Restful.Gen\n")
 	if err := os.WriteFile(out, []byte(b.String()), 0o644); err != nil {
 		fmt.Fprintln(os.Stderr, err)
 		os.Exit(1)
+	}
+}
+
+type structInfo struct {
+	Name   string
+	Fields []string
+}
+
+var pkgVars, consts [][2]string
+var structs []structInfo
+
+// collectState records package-level `var`s, `const`s and struct types of one declaration.
+func collectState(gd *ast.GenDecl) {
+	for _, sp := range gd.Specs {
+		switch x := sp.(type) {
+		case *ast.ValueSpec:
+			for i, n := range x.Names {
+				if n.Name == "_" {
+					continue
+				}
+				desc := ""
+				if x.Type != nil {
+					desc = src(x.Type)
+				}
+				if i < len(x.Values) {
+					v := src(x.Values[i])
+					if len(v) > 120 {
+						v = v[:120]
+					}
+					if desc != "" {
+						desc += " = "
+					}
+					desc += v
+				}
+				desc = strings.Join(strings.Fields(desc), " ")
+				if gd.Tok.String() == "const" {
+					consts = append(consts, [2]string{n.Name, desc})
+				} else {
+					pkgVars = append(pkgVars, [2]string{n.Name, desc})
+				}
+			}
+		case *ast.TypeSpec:
+			if st, ok := x.Type.(*ast.StructType); ok {
+				info := structInfo{Name: x.Name.Name}
+				for _, f := range st.Fields.List {
+					t := strings.Join(strings.Fields(src(f.Type)), " ")
+					if len(f.Names) == 0 {
+						info.Fields = append(info.Fields, "(embedded) "+t)
+					}
+					for _, n := range f.Names {
+						info.Fields = append(info.Fields, n.Name+" "+t)
+					}
+				}
+				structs = append(structs, info)
+			}
+		}
 	}
 }
 
